@@ -218,6 +218,45 @@ pub fn scenarios() -> Vec<Scenario> {
         Scenario { name: "bom_first_line", files: vec![("a.txt.txtpp", s("\u{feff}hello\nworld\n"))], inputs: vec!["."], recursive: false },
         Scenario { name: "temp_trailing_empty_lines", files: vec![("a.txt.txtpp", s("-TXTPP#temp t.txt\n-a\n-\n-\nx\n"))], inputs: vec!["."], recursive: false },
         Scenario { name: "symlinked_source_and_dir", files: vec![("real/r.txt.txtpp", s("r\n")), ("shared/deep/d.txt.txtpp", s("d\n")), ("scan/keep.txt", s("k\n"))], inputs: vec!["scan"], recursive: true },
+        Scenario {
+            name: "nonascii_prefix_continuation",
+            files: vec![("a.txt.txtpp", s("\u{bb} TXTPP#write a\n\u{bb} b\n  \n\u{bb}\nend\n\u{e9}\u{e9} TXTPP#run echo r\n   \nx\n"))],
+            inputs: vec!["."],
+            recursive: false,
+        },
+        Scenario {
+            name: "dep_only_via_txtpp_ext",
+            files: vec![("a.txt.txtpp", s("-TXTPP#include part.txt\n-TXTPP#after data.csv\n+TXTPP#run cat data.csv\n")), ("part.txtpp.txt", s("-TXTPP#run echo fresh part\n")), ("data.txtpp.csv", s("1,2\n"))],
+            inputs: vec!["a.txt"],
+            recursive: false,
+        },
+        Scenario {
+            name: "cycle_via_txtpp_ext",
+            files: vec![("loop.txtpp.md", s("-TXTPP#include loop.md\n")), ("ok.txt.txtpp", s("fine\n"))],
+            inputs: vec!["."],
+            recursive: false,
+        },
+        Scenario { name: "include_invalid_utf8", files: vec![("a.txt.txtpp", s("head\n-TXTPP#include bad.bin\n")), ("bad.bin", b"ok\xff\xfe\n".to_vec())], inputs: vec!["."], recursive: false },
+        Scenario {
+            name: "temp_outside_dir",
+            files: vec![("sub/a.txt.txtpp", s("-TXTPP#temp ../gen/x.txt\n-content\nmid\n+TXTPP#temp deeper/y.txt\n+y\n")), ("gen/keep.txt", s("k\n")), ("sub/deeper/keep.txt", s("k\n"))],
+            inputs: vec!["sub"],
+            recursive: false,
+        },
+        Scenario { name: "temp_in_missing_dir", files: vec![("a.txt.txtpp", s("-TXTPP#temp cache/gen/x.txt\n-content\n"))], inputs: vec!["."], recursive: false },
+        Scenario {
+            name: "tag_single_line_foreign_le",
+            files: vec![("a.txt.txtpp", s("-TXTPP#tag V\n-TXTPP#include one_crlf.txt\n[V]\n-TXTPP#tag W\n-TXTPP#run echo hi\n<W>\n")), ("one_crlf.txt", s("hello\r\n"))],
+            inputs: vec!["."],
+            recursive: false,
+        },
+        Scenario { name: "directive_names_are_case_sensitive", files: vec![("a.txt.txtpp", s("-TXTPP#Run echo no\n// TXTPP#WRITE x\n# TXTPP#Tag T\n-TXTPP#Include a\nT\n"))], inputs: vec!["."], recursive: false },
+        Scenario {
+            name: "custom_shell_one_word",
+            files: vec![("a.txt.txtpp", s("-TXTPP#run one two  three\nend\n")), ("probe.sh", s("#!/bin/sh\nprintf 'argc=%s\\n' \"$#\"\nfor a in \"$@\"; do printf '[%s]\\n' \"$a\"; done\n"))],
+            inputs: vec!["."],
+            recursive: false,
+        },
         Scenario { name: "missing_target", files: vec![("a.txt.txtpp", s("a\n"))], inputs: vec!["nothere.txt"], recursive: false },
     ]
 }
@@ -278,6 +317,8 @@ pub struct RefRun {
     stack: Vec<PathBuf>,
     pub cycle: bool,
     pub failed: bool,
+    /// the configured shell: program and its arguments; the command is appended as ONE argument
+    pub shell: Vec<String>,
 }
 
 fn first_le(text: &str) -> &'static str {
@@ -464,7 +505,8 @@ impl RefRun {
                     "run" => {
                         let cmd = d.args.join(" ");
                         let file = src.strip_prefix(base).map(|p| p.display().to_string()).unwrap_or(src.display().to_string());
-                        let o = std::process::Command::new("sh").arg("-c").arg(&cmd).current_dir(&dir).env("TXTPP_FILE", file).output().map_err(|_| ())?;
+                        let sh: Vec<String> = if self.shell.is_empty() { vec!["sh".into(), "-c".into()] } else { self.shell.clone() };
+                        let o = std::process::Command::new(&sh[0]).args(&sh[1..]).arg(&cmd).current_dir(&dir).env("TXTPP_FILE", file).output().map_err(|_| ())?;
                         if !o.status.success() {
                             return Err(());
                         }
@@ -562,7 +604,11 @@ fn materialize(root: &Path, sc: &Scenario) {
     for (p, c) in &sc.files {
         let fp = root.join(p);
         fs::create_dir_all(fp.parent().unwrap()).unwrap();
-        fs::write(fp, c).unwrap();
+        fs::write(&fp, c).unwrap();
+        if p.ends_with(".sh") {
+            use std::os::unix::fs::PermissionsExt;
+            fs::set_permissions(&fp, fs::Permissions::from_mode(0o755)).unwrap();
+        }
     }
     for (l, t) in scenario_links(sc.name) {
         let lp = root.join(l);
@@ -574,7 +620,7 @@ fn materialize(root: &Path, sc: &Scenario) {
 fn cfg(root: &Path, sc: &Scenario, mode: Mode, threads: usize, tn: bool) -> Config {
     Config {
         base_dir: root.to_path_buf(),
-        shell_cmd: "".into(),
+        shell_cmd: if sc.name == "custom_shell_one_word" { root.join("probe.sh").display().to_string() } else { "".into() },
         inputs: sc.inputs.iter().map(|x| x.to_string()).collect(),
         recursive: sc.recursive,
         num_threads: threads,
@@ -629,6 +675,9 @@ pub fn reference(refroot: &Path, sc: &Scenario, tn: bool) -> Expect {
     materialize(refroot, sc);
     let base = refroot.canonicalize().unwrap();
     let mut rr = RefRun::default();
+    if sc.name == "custom_shell_one_word" {
+        rr.shell = vec![base.join("probe.sh").display().to_string()];
+    }
     let mut ok = true;
     let mut other_failure = false;
     let mut cleaned_abs: BTreeSet<PathBuf> = BTreeSet::new();
@@ -704,6 +753,15 @@ fn scenario_props(name: &str) -> &'static [&'static str] {
         "bom_first_line" => &["C16"],
         "temp_trailing_empty_lines" => &["C13"],
         "symlinked_source_and_dir" => &["C11", "C03"],
+        "nonascii_prefix_continuation" => &["C15", "C18", "C03"],
+        "dep_only_via_txtpp_ext" => &["C02", "C11", "C08"],
+        "cycle_via_txtpp_ext" => &["C05", "C11"],
+        "include_invalid_utf8" => &["C04"],
+        "temp_outside_dir" => &["C07", "C10"],
+        "temp_in_missing_dir" => &["C10"],
+        "tag_single_line_foreign_le" => &["C12", "C14"],
+        "directive_names_are_case_sensitive" => &["C15", "C16"],
+        "custom_shell_one_word" => &["C17"],
         _ => &[],
     }
 }
@@ -896,7 +954,7 @@ fn xorshift(state: &mut u64) -> u64 {
     x
 }
 
-const LINE_ALPHABET: [&str; 26] = [
+const LINE_ALPHABET: [&str; 31] = [
     "", "text", "  indented text", "T1 and T2 here", "trailing space ", "T2T1",
     "-TXTPP#run echo r1; echo r2", "-TXTPP#run printf 'no-nl'", "  # TXTPP#run echo ind",
     "-TXTPP#write w1", "-w2", "-", "  # more", "  #",
@@ -904,6 +962,7 @@ const LINE_ALPHABET: [&str; 26] = [
     "-TXTPP#tag T1", "+TXTPP#tag T2",
     "-TXTPP#include inc.txt", "  -TXTPP#include inc_nonl.txt",
     "-TXTPP#", "-TXTPP# comment", "TXTPP#write bare", "x TXTPP#unknown y", "\tTXTPP#after inc.txt",
+    "-TXTPP#include one_crlf.txt", "-TXTPP#Run echo no", "\u{bb} TXTPP#write na", "\u{bb} nb", "  ",
 ];
 
 pub fn random_source(seed: u64, k: u64) -> Vec<u8> {
@@ -934,7 +993,7 @@ fn run_random(work: &Path, seed: u64, k: u64, tn: bool) -> SysReport {
     let mut rep = SysReport { expected_err: vec![], checked: 1, failures: vec![], base_pending: vec![] };
     let sc = Scenario {
         name: "random_single_file",
-        files: vec![("a.txt.txtpp", random_source(seed, k)), ("inc.txt", s("i1\r\ni2\n")), ("inc_nonl.txt", s("n1\nn2"))],
+        files: vec![("a.txt.txtpp", random_source(seed, k)), ("inc.txt", s("i1\r\ni2\n")), ("inc_nonl.txt", s("n1\nn2")), ("one_crlf.txt", s("single\r\n"))],
         inputs: vec!["."],
         recursive: false,
     };
@@ -1309,7 +1368,72 @@ fn run_one(work: &Path, sc: &Scenario, tn: bool) -> SysReport {
             rep.fail(sc, &format!("Clean round {round} after a real build"), d, &["C07", "C10"]);
         }
     }
+    edit_history(&mut rep, work, sc, tn);
     clean_without_build(rep, &root, sc, tn)
+}
+
+/// sources as edited AFTER a first build (history: build, edit, then verify / build / needed build)
+fn edited_files(name: &str) -> Option<Vec<(&'static str, Vec<u8>)>> {
+    match name {
+        "plain_lf" => Some(vec![("a.txt.txtpp", s("one\nTWO edited\n  three\n"))]),
+        "temp_files" => Some(vec![("a.txt.txtpp", s("// TXTPP#temp t1.txt\n// line1 EDITED\n//\n//   line3\nmid\n-TXTPP#temp sub/t2.txt\n+TXTPP#include t1.txt\nend\n"))]),
+        "chain" => Some(vec![("c.txtpp", s("C1 edited\nC2"))]),
+        "run_echo" => Some(vec![("a.txt.txtpp", s("x\n  # TXTPP#run echo 1; echo CHANGED\ny\n-TXTPP#run printf 'p q'\nz\n"))]),
+        _ => None,
+    }
+}
+
+/// phase E: build, edit the sources, then: verify must fail (the outputs are stale), a build and a needed build must
+/// give exactly what a fresh build of the edited sources gives
+fn edit_history(rep: &mut SysReport, work: &Path, sc: &Scenario, tn: bool) {
+    let Some(edits) = edited_files(sc.name) else { return };
+    let root = work.join("real");
+    let edited = Scenario {
+        name: sc.name,
+        files: sc.files.iter().map(|(p, c)| (*p, edits.iter().find(|(q, _)| q == p).map(|(_, e)| e.clone()).unwrap_or(c.clone()))).collect(),
+        inputs: sc.inputs.clone(),
+        recursive: sc.recursive,
+    };
+    // what a fresh REAL build of the edited sources gives
+    let fresh_root = work.join("fresh");
+    materialize(&fresh_root, &edited);
+    let fresh_ok = run_real(cfg(&fresh_root, &edited, Mode::Build, 1, tn));
+    let fresh_tree = snapshot(&fresh_root);
+    let _ = fs::remove_dir_all(&fresh_root);
+    if fresh_ok != Ok(true) {
+        return;
+    }
+    for mode in [Mode::Verify, Mode::Build, Mode::InMemoryBuild] {
+        rep.checked += 1;
+        materialize(&root, sc);
+        let _ = run_real(cfg(&root, sc, Mode::Build, 2, tn));
+        let old_tree = snapshot(&root);
+        for (p, c) in &edits {
+            fs::write(root.join(p), c).unwrap();
+        }
+        let phase = format!("history: Build, edit {:?}, then {:?} (tn={tn})", edits.iter().map(|(p, _)| *p).collect::<Vec<_>>(), mode);
+        let r = run_real(cfg(&root, &edited, mode.clone(), 2, tn));
+        match mode {
+            Mode::Verify => {
+                let mut with_edit = old_tree.clone();
+                for (p, c) in &edits {
+                    with_edit.insert(PathBuf::from(p), c.clone());
+                }
+                let stale = diff_trees(&fresh_tree, &with_edit, &|_| false).is_some();
+                if stale && r != Ok(false) {
+                    rep.fail(sc, &phase, format!("{r:?} although the outputs are stale (a build would now write something else)"), &["C06"]);
+                }
+            }
+            _ => {
+                let props: &[&str] = if matches!(mode, Mode::Build) { &["C08"] } else { &["C09", "C08"] };
+                if r != Ok(true) {
+                    rep.fail(sc, &phase, format!("{r:?} but a fresh build of the edited sources succeeds"), props);
+                } else if let Some(d) = diff_trees(&fresh_tree, &snapshot(&root), &|_| false) {
+                    rep.fail(sc, &phase, format!("differs from a fresh build of the edited sources: {d}"), props);
+                }
+            }
+        }
+    }
 }
 
 fn clean_without_build(mut rep: SysReport, root: &Path, sc: &Scenario, tn: bool) -> SysReport {
